@@ -349,6 +349,20 @@ func randomCall(r *rand.Rand, ts *TraceSpec, last *Event, chunkIDs []string) Cal
 		if len(names) == 0 {
 			return Call{Op: "Stat", P: d, Q: []string{}}
 		}
+		// if every chosen member already is a regular file, sometimes replace them through Operations.Update
+		allFiles := true
+		for _, nm := range names {
+			isFile := false
+			for _, ff := range files {
+				if len(ff) == len(d)+1 && strings.Join(ff[:len(d)], "/") == strings.Join(d, "/") && ff[len(d)] == nm {
+					isFile = true
+				}
+			}
+			allFiles = allFiles && isFile
+		}
+		if allFiles && r.Intn(2) == 0 {
+			return Call{Op: "UpdateBatch", P: d, Q: names, C: ch}
+		}
 		return Call{Op: "Archive", P: d, Q: names, C: ch}
 	case x < 9:
 		// OpenFile with an arbitrary flag combination, sometimes followed by one write
